@@ -565,4 +565,209 @@ example :
     getProcAddress demoView (.ordinal 7) = .err .null ∧ getExport demoView (.name [98]) = .err .null ∧
     getExport demoView (.name [100]) = .err .null := by decide +kernel
 
+/-! ### lookup by name on ANY table: the answer is a member of the acceptable-answer set
+
+`Spec.acceptName T cstr q` (Spec/Exports.lean) is written from the format: what any hint named `q`
+denotes; Null when there is none; on a table that is not sorted additionally Null and the failure of
+reading a name.  The model driver prints it (`accept=[…]`) for every `name` / `hint_name` /
+`import byname` / `get name` / `get byname` operation and the Python oracle requires the REAL code's
+answer to be a member — also where `Spec.nameDetermined` fails (`hyp=0`). -/
+
+/-- (helper for `C08_name_in_accept`) what the binary search answers on any table: Null, or what a
+hint named `q` denotes (value or error), or the failure of reading a name it probed -/
+theorem nameLoop_answer (y : By) (q : List Nat) (lower upper : Nat)
+    (h1 : lower ≤ upper) (h2 : upper ≤ y.names.cnt) :
+    y.nameLoop q lower upper = .err .null ∨
+    (∃ h, h < y.names.cnt ∧ y.nameStr h = .ok q ∧ y.nameLoop q lower upper = y.hint h) ∨
+    (∃ h e, h < y.names.cnt ∧ y.nameStr h = .err e ∧ y.nameLoop q lower upper = .err e) := by
+  fun_induction By.nameLoop y q lower upper with
+  | case1 lower => exact .inl rfl
+  | case2 lower upper hne hlt => omega
+  | case3 lower upper hne hlt i hi c hc s hqs ih => exact ih (by omega) (by omega)
+  | case4 lower upper hne hlt i hi c hc s hqs hsq ih => exact ih (by omega) (by omega)
+  | case5 lower upper hne hlt i hi c hc s hqs hsq hix =>
+    refine .inr (.inl ⟨i, hi, ?_, ?_⟩)
+    · rw [nameStr_of_derva hi hc]
+      exact congrArg Out.ok (List.le_antisymm (List.not_lt.1 hqs) (List.not_lt.1 hsq))
+    · unfold By.hint; rw [if_pos hix]
+  | case6 lower upper hne hlt i hi c hc s hqs hsq hix =>
+    refine .inr (.inl ⟨i, hi, ?_, ?_⟩)
+    · rw [nameStr_of_derva hi hc]
+      exact congrArg Out.ok (List.le_antisymm (List.not_lt.1 hqs) (List.not_lt.1 hsq))
+    · unfold By.hint; rw [if_neg hix]
+  | case7 lower upper hne hlt i hi e hc =>
+    refine .inr (.inr ⟨i, e, hi, ?_, rfl⟩)
+    unfold By.nameStr By.nameOfHint
+    rw [if_pos hi, hc]
+    rfl
+  | case8 lower upper hne hlt i hi s hc =>
+    rcases dervaCStr_okOrErr y.exp.v (y.nameAt i) with ⟨_, h⟩ | ⟨_, h⟩ <;> rw [hc] at h <;> cases h
+  | case9 lower upper hne hlt i hi s hc =>
+    rcases dervaCStr_okOrErr y.exp.v (y.nameAt i) with ⟨_, h⟩ | ⟨_, h⟩ <;> rw [hc] at h <;> cases h
+  | case10 lower upper hne hlt i hi hc =>
+    rcases dervaCStr_okOrErr y.exp.v (y.nameAt i) with ⟨_, h⟩ | ⟨_, h⟩ <;> rw [hc] at h <;> cases h
+  | case11 lower upper hne hlt i hi => omega
+
+/-- (helper) what a hint named `q` denotes is one of the table's entries for `q` -/
+theorem hint_mem_namedEntries (y : By) (q : List Nat) (h : Nat) (hq : y.nameStr h = .ok q) :
+    mapOut (Export.abs y.b) (y.hint h) ∈ Spec.namedEntries (tablesOf y) (cstrOf y.exp.v) q := by
+  unfold Spec.namedEntries
+  rw [hint_abs]
+  refine List.mem_map.2 ⟨h, ?_, rfl⟩
+  unfold Spec.hintsOf
+  refine List.mem_filter.2 ⟨List.mem_range.2 (by rw [tablesOf_names_length]; exact nameStr_ok_lt hq), ?_⟩
+  rw [← nameStr_eq_spec, hq]
+  exact decide_eq_true rfl
+
+/-- (helper) a member of the named entries is a member of the acceptable-answer set -/
+theorem acceptName_of_named (T : Spec.Tables) (cs : Nat → Out (List Nat)) (q : List Nat) (a : Out Spec.Sym)
+    (h : a ∈ Spec.namedEntries T cs q) : a ∈ Spec.acceptName T cs q :=
+  List.mem_append_left _ h
+
+/-- `By::name` on ANY table — unsorted, duplicated, unreadable names, short ordinal table: the answer
+(value or error, references forgotten) is a member of the acceptable-answer set of the tables.
+No hypothesis.  (Ok answers: `C08_name_sound`; the errors: `nameLoop_answer`, and `name_sorted` where
+the table is sorted — there neither the extra Null nor a read failure is in the set.) -/
+theorem C08_name_in_accept (y : By) (q : List Nat) :
+    mapOut (Export.abs y.b) (y.name q) ∈ Spec.acceptName (tablesOf y) (cstrOf y.exp.v) q := by
+  by_cases hs : Spec.sorted (tablesOf y) (cstrOf y.exp.v) = true
+  · rcases name_sorted y q hs with ⟨hne, hnull⟩ | ⟨h, _, he, hres⟩
+    · have hemp : Spec.namedEntries (tablesOf y) (cstrOf y.exp.v) q = [] := by
+        unfold Spec.namedEntries Spec.hintsOf
+        rw [List.map_eq_nil_iff, List.filter_eq_nil_iff]
+        intro h _ hq
+        rw [← nameStr_eq_spec] at hq
+        exact hne h (of_decide_eq_true hq)
+      rw [hnull]
+      unfold Spec.acceptName
+      rw [hemp]
+      exact List.mem_append_right _ (List.mem_append_left _ (List.mem_singleton.2 rfl))
+    · rw [hres]
+      exact acceptName_of_named _ _ _ _ (hint_mem_namedEntries y q h he)
+  · have hb : Spec.sorted (tablesOf y) (cstrOf y.exp.v) = false := by
+      cases hv : Spec.sorted (tablesOf y) (cstrOf y.exp.v)
+      · rfl
+      · exact absurd hv hs
+    rcases nameLoop_answer y q 0 y.names.cnt (Nat.zero_le _) (Nat.le_refl _) with
+      hn | ⟨h, _, he, hres⟩ | ⟨h, e, hh, he, hres⟩
+    · have : y.name q = .err .null := hn
+      rw [this]
+      unfold Spec.acceptName
+      rw [hb]
+      refine List.mem_append_right _ (List.mem_append_left _ ?_)
+      rw [Bool.not_false, Bool.or_true, if_pos rfl]
+      exact List.mem_singleton.2 rfl
+    · have : y.name q = y.hint h := hres
+      rw [this]
+      exact acceptName_of_named _ _ _ _ (hint_mem_namedEntries y q h he)
+    · have : y.name q = .err e := hres
+      rw [this]
+      unfold Spec.acceptName
+      rw [hb]
+      refine List.mem_append_right _ (List.mem_append_right _ ?_)
+      rw [if_neg (by decide)]
+      unfold Spec.nameReadFailures
+      refine List.mem_filterMap.2 ⟨h, List.mem_range.2 (by rw [tablesOf_names_length]; exact hh), ?_⟩
+      rw [← nameStr_eq_spec, he]
+      rfl
+
+/-- `By::hint_name` on ANY table: the same set — a right hint answers one of the entries named `q`
+directly (`C08_hint_name_sound`), a wrong one inherits the binary search's answer. -/
+theorem C08_hint_name_in_accept (y : By) (h : Nat) (q : List Nat) :
+    mapOut (Export.abs y.b) (y.hintName h q) ∈ Spec.acceptName (tablesOf y) (cstrOf y.exp.v) q := by
+  rw [hintName_eq]
+  split
+  next hc => exact acceptName_of_named _ _ _ _ (hint_mem_namedEntries y q h hc.2)
+  next => exact C08_name_in_accept y q
+
+/-- … and `By::import` with a `ByName` descriptor, `get_export` by name / by `ByName` descriptor
+(whenever `exports()?.by()?` yields `y`). -/
+theorem C08_import_in_accept (y : By) (h : Nat) (q : List Nat) :
+    mapOut (Export.abs y.b) (y.import (.byName h q)) ∈ Spec.acceptName (tablesOf y) (cstrOf y.exp.v) q :=
+  C08_hint_name_in_accept y h q
+
+theorem C08_get_export_in_accept (v : View) (e : Exports) (y : By) (h : Nat) (q : List Nat)
+    (he : tryFrom v = .ok e) (hy : e.by = .ok y) :
+    mapOut (Export.abs y.b) (getExport v (.name q)) ∈ Spec.acceptName (tablesOf y) (cstrOf y.exp.v) q ∧
+    mapOut (Export.abs y.b) (getExport v (.import (.byName h q))) ∈
+      Spec.acceptName (tablesOf y) (cstrOf y.exp.v) q := by
+  rw [(C08_get_export_cases v (.name q)).2.2 e y he hy,
+      (C08_get_export_cases v (.import (.byName h q))).2.2 e y he hy]
+  exact ⟨C08_name_in_accept y q, C08_import_in_accept y h q⟩
+
+/-- What the set contains, read off its definition: every Ok member is what a hint named `q` denotes
+(so membership of an Ok answer is exactly the soundness of `C08_name_sound`), and on a sorted table
+the set is nothing but the named entries, or Null alone when there are none. -/
+theorem C08_accept_members (T : Spec.Tables) (cs : Nat → Out (List Nat)) (q : List Nat) :
+    (∀ s, .ok s ∈ Spec.acceptName T cs q →
+      ∃ h, h < T.names.length ∧ Spec.nameOfHint T cs h = .ok q ∧ Spec.hint T cs h = .ok s) ∧
+    (Spec.sorted T cs = true →
+      Spec.acceptName T cs q =
+        Spec.namedEntries T cs q ++ (if (Spec.namedEntries T cs q).isEmpty then [.err .null] else [])) := by
+  refine ⟨?_, ?_⟩
+  · intro s hs
+    unfold Spec.acceptName at hs
+    rcases List.mem_append.1 hs with h1 | h2
+    · unfold Spec.namedEntries Spec.hintsOf at h1
+      obtain ⟨h, hh, he⟩ := List.mem_map.1 h1
+      obtain ⟨hr, hq⟩ := List.mem_filter.1 hh
+      exact ⟨h, List.mem_range.1 hr, of_decide_eq_true hq, he⟩
+    · rcases List.mem_append.1 h2 with h3 | h3
+      · split at h3
+        · cases List.mem_singleton.1 h3
+        · cases h3
+      · split at h3
+        · cases h3
+        · unfold Spec.nameReadFailures at h3
+          obtain ⟨h, _, hf⟩ := List.mem_filterMap.1 h3
+          cases hn : Spec.nameOfHint T cs h <;> rw [hn] at hf <;> cases hf
+  · intro hs
+    unfold Spec.acceptName
+    rw [hs, if_pos rfl, List.append_nil, Bool.not_true, Bool.or_false]
+
+/-- non-vacuity on the UNSORTED table with a DUPLICATE name (`demoBy2`: names "c","c","a", indices
+0, 3, 2): the set for "c" is both entries named "c" plus the Null an unsorted table may answer — the
+binary search answers the second of them (the linear search the first); the set for "a" is the
+forwarder plus Null — the binary search misses it and answers Null; a name that is not in the table
+has Null alone.  None of the three is `Spec.nameDetermined`. -/
+example :
+    Spec.acceptName (tablesOf demoBy2) (cstrOf demoView2) [99] =
+      [.ok (.symbol 16), .ok (.symbol 32), .err .null] ∧
+    mapOut (Export.abs demoBy2.b) (demoBy2.name [99]) = .ok (.symbol 32) ∧
+    mapOut (Export.abs demoBy2.b) (demoBy2.nameLinear [99]) = .ok (.symbol 16) ∧
+    Spec.acceptName (tablesOf demoBy2) (cstrOf demoView2) [97] =
+      [.ok (.forward [107, 46, 102]), .err .null] ∧
+    demoBy2.name [97] = .err .null ∧
+    mapOut (Export.abs demoBy2.b) (demoBy2.hintName 2 [97]) = .ok (.forward [107, 46, 102]) ∧
+    Spec.acceptName (tablesOf demoBy2) (cstrOf demoView2) [98] = [.err .null] := by
+  decide +kernel
+
+/-- a SORTED table with a duplicate name: `demoImg` with the name pointer table `[268 "a", 272 "c",
+272 "c"]` (indices 0, 1, 3; entry 1 is a hole).  `check_sorted` answers true, `Spec.nameDetermined`
+fails.  The set for "c" is `[Null (the hole), Symbol(32)]` with no further Null; the binary search
+answers the hole's Null, `hint_name 2 "c"` the symbol; "b" is no longer a name: Null alone. -/
+def demoImg3 : Img := ⟨demoImg.bytes.set! 252 16, 0⟩
+def demoView3 : View := ⟨demoImg3, .pe32, .view, 0x400000⟩
+def demoBy3 : By := ⟨⟨demoView3, 192, 86, 192⟩, ⟨232, 4, false⟩, ⟨248, 3, false⟩, ⟨260, 3, false⟩⟩
+
+example : (fromBytes .pe32 .view demoImg3).isOk = true ∧
+    (tryFrom demoView3).bind (fun e => e.by.bind fun y => .ok (e.ddVA, e.ddSize, e.off, y.fns, y.names, y.idx)) =
+      .ok (192, 86, 192, ⟨232, 4, false⟩, ⟨248, 3, false⟩, ⟨260, 3, false⟩) ∧
+    demoBy3.checkSorted = .ok true ∧ Spec.sorted (tablesOf demoBy3) (cstrOf demoView3) = true ∧
+    Spec.nameDetermined (tablesOf demoBy3) (cstrOf demoView3) = false ∧
+    Spec.acceptName (tablesOf demoBy3) (cstrOf demoView3) [99] = [.err .null, .ok (.symbol 32)] ∧
+    demoBy3.name [99] = .err .null ∧
+    mapOut (Export.abs demoBy3.b) (demoBy3.hintName 2 [99]) = .ok (.symbol 32) ∧
+    Spec.acceptName (tablesOf demoBy3) (cstrOf demoView3) [98] = [.err .null] ∧
+    Spec.acceptName (tablesOf demoBy3) (cstrOf demoView3) [97] = [.ok (.symbol 16)] := by
+  decide +kernel
+
+/-- the theorems instantiated on both (membership decided independently of the proof) -/
+example : mapOut (Export.abs demoBy2.b) (demoBy2.name [99]) ∈
+    Spec.acceptName (tablesOf demoBy2) (cstrOf demoView2) [99] := C08_name_in_accept demoBy2 [99]
+example : (Out.ok (.symbol 32) : Out Spec.Sym) ∈ Spec.acceptName (tablesOf demoBy2) (cstrOf demoView2) [99] ∧
+    (Out.ok (.symbol 48) : Out Spec.Sym) ∉ Spec.acceptName (tablesOf demoBy2) (cstrOf demoView2) [99] ∧
+    (Out.err .null : Out Spec.Sym) ∉ Spec.acceptName (tablesOf demoBy3) (cstrOf demoView3) [97] := by
+  decide +kernel
+
 end Pelite.Exports
